@@ -30,11 +30,14 @@ ALLOWED_PRIMITIVES = {
         ("os.mkdir", "directory_path"),
         ("open:wb", "temp_file_path"),
         ("os.replace", "temp_file_path, file_path"),
+        ("os.remove", "temp_file_path"),
+        ("os.rmdir", "directory_path"),
     ],
     "ascmhl.chain_xml_parser.write_chain": [
         ("os.mkdir", "directory_path"),
         ("open:wb", "temp_file_path"),
         ("os.replace", "temp_file_path, chain.file_path"),
+        ("os.remove", "temp_file_path"),
     ],
     "ascmhl.history.MHLHistory.create_collection_at_path": [("os.mkdir", "parent_path"), ("os.mkdir", "collection_folder_path")],
     # not reachable from the shipped CLIs (checked below); declared with their own frames and excluded from the claim
@@ -417,7 +420,11 @@ class Statics:
         if fi is None:
             self.ob("C05", q, "exists", False, "chain writer not found", unknown=True)
         else:
-            loops = [n for n in ast.walk(fi.node) if isinstance(n, ast.For) and ast.unparse(n.iter) == "chain.generations"]
+            loops = []
+            for x in sorted(self.reach(q)):
+                fx = self.repo.funcs[x]
+                if fx.module == fi.module:
+                    loops += [n for n in ast.walk(fx.node) if isinstance(n, ast.For) and ast.unparse(n.iter) == "chain.generations"]
             if len(loops) != 1:
                 self.ob("C05", q, "old-entries-loop", False, "no single loop over chain.generations in write_chain", unknown=True)
             else:
@@ -552,6 +559,62 @@ class Statics:
             self.obs[-1]["props"] = ["C15", "C08"]
 
 
+    # ---------------------------------------------------------------- C12 (call-site obligations)
+    def c12(self):
+        pid = "C12"
+        SPEC_SRC = "ignore.MHLIgnoreSpec(existing_history.latest_ignore_patterns(), ignore_list, ignore_spec_file)"
+        cmds = {
+            "ascmhl.commands.create_for_folder_subcommand": True,
+            "ascmhl.commands.create_for_single_files_subcommand": True,
+            "ascmhl.commands.verify_entire_folder": False,
+            "ascmhl.commands.verify_directory_hash_subcommand": False,
+            "ascmhl.commands.diff_entire_folder_against_full_history_subcommand": False,
+            "ascmhl.commands.flatten_history": True,
+        }
+        for q, has_session in cmds.items():
+            fi = self.repo.funcs.get(q)
+            if fi is None:
+                self.ob(pid, q, "exists", False, "command body not found", unknown=True, kind="callsite")
+                continue
+            srcs = self.assigns(fi, "ignore_spec")
+            self.ob(pid, q, "effective-spec = latest recorded + command line + pattern file", len(srcs) == 1 and srcs[0][0] == SPEC_SRC,
+                    f"ignore_spec is built as {[x for x, _ in srcs]}, the effective patterns are {SPEC_SRC}", srcs[0][1] if srcs else None, kind="callsite")
+            # traversal and missing-file filter use that spec
+            for n in ast.walk(fi.node):
+                if isinstance(n, ast.Call) and isinstance(n.func, ast.Name) and n.func.id == "post_order_lexicographic":
+                    a = ast.unparse(n.args[1]) if len(n.args) > 1 else None
+                    ok = a in ("ignore_spec.get_path_spec()", "session.ignore_spec.get_path_spec()")
+                    self.ob(pid, q, f"traversal-uses-effective-spec@{n.lineno}", ok, f"traversal is given {a}", n.lineno, kind="callsite")
+                if isinstance(n, ast.Call) and isinstance(n.func, ast.Name) and n.func.id == "test_for_missing_files":
+                    a = ast.unparse(n.args[2]) if len(n.args) > 2 else None
+                    self.ob(pid, q, f"missing-file-filter-uses-effective-spec@{n.lineno}", a == "ignore_spec", f"test_for_missing_files is given {a}", n.lineno, kind="callsite")
+            if has_session:
+                sess = [s_ for s_, _ in self.assigns(fi, "session")]
+                ok = len(sess) == 1 and sess[0].endswith(", ignore_spec)") and sess[0].startswith("MHLGenerationCreationSession(")
+                self.ob(pid, q, "session-carries-effective-spec", ok, f"session is built as {sess}", kind="callsite")
+        # every generation written by commit gets latest(history) + session patterns, unconditionally
+        q = "ascmhl.generator.MHLGenerationCreationSession.commit"
+        fi = self.repo.funcs.get(q)
+        if fi is not None:
+            want = "MHLIgnoreSpec(history.latest_ignore_patterns(), self.ignore_spec.get_pattern_list())"
+            loops = [n for n in fi.node.body if isinstance(n, ast.For)]
+            found = None
+            if len(loops) == 1:
+                for st_ in loops[0].body:
+                    if isinstance(st_, ast.Assign) and ast.unparse(st_.targets[0]) == "new_hash_list.process_info.ignore_spec":
+                        found = (ast.unparse(st_.value), st_.lineno)
+            cond = [ast.unparse(n.targets[0]) for n in ast.walk(fi.node) if isinstance(n, ast.Assign) and ast.unparse(n.targets[0]).endswith("process_info.ignore_spec")]
+            self.ob(pid, q, "every-written-generation-gets-accumulated-patterns", found is not None and found[0] == want and len(cond) == 1,
+                    f"in commit the pattern list of a new generation is set {'conditionally or elsewhere' if found is None else 'to ' + found[0]}; "
+                    f"every written generation needs {want}", found[1] if found else None, kind="callsite")
+        q = "ascmhl.history.MHLHistory.latest_ignore_patterns"
+        fi = self.repo.funcs.get(q)
+        if fi is not None:
+            src = ast.unparse(fi.node)
+            self.ob(pid, q, "latest = patterns of the last generation", "self.hash_lists[-1]" in src and "get_pattern_list()" in src,
+                    "latest_ignore_patterns does not read the last generation's pattern list", kind="callsite")
+
+
 def run(pid, tier, repo_root=None):
     from . import REPO
 
@@ -562,6 +625,8 @@ def run(pid, tier, repo_root=None):
         s.c05()
     elif pid == "C15":
         s.c15()
+    elif pid == "C12":
+        s.c12()
     elif pid in ("C06", "C08", "C03"):
         s.c05()
         s.c15()
